@@ -402,6 +402,7 @@ class World:
         self.user_hash = [[h_array(a) for a in arrs] for arrs in self.arrays]
         self.setups = [make_setup(s, self.arrays[i], user_fs(w)) for i, s in enumerate(w["setups"])]
         self.algs = []
+        self.sel_lists = {}  # algorithm index -> the one list object the user passes as sel_freq again and again
         self.record_gen = {}  # setup index -> how many records of that kind have been analysed before the current one
         self.user_shared_params = {}  # id -> parameter object that the user handed to more than one algorithm
         for a in w["algs"]:
@@ -639,7 +640,8 @@ def gen_swarm(rng, mode, tier="quick"):
          "save_crash": rng.choice([0, 0.3, 0.8]), "poser": rng.choice([0.5, 1, 2]) if mode != "preger" else 0,
          "bare_gate": rng.choice([0, 0.3]), "new_record": rng.choice([0, 0, 0.4, 1.0]) if mode != "poser" else 0,
          "recreate": rng.choice([0, 0.5, 1.0]) if mode != "poser" else 0,
-         "branch_copy": rng.choice([0, 0, 0.5]) if mode != "poser" else 0}
+         "branch_copy": rng.choice([0, 0, 0.5]) if mode != "poser" else 0,
+         "user_edit": rng.choice([0, 0, 0.6]) if mode == "mixed" else 0}
     r = rng.random()
     nops = rng.randint(3, 5) if r < 0.3 else rng.randint(5, 8) if r < 0.75 else rng.randint(8, 12)
     if tier == "thorough" and rng.random() < 0.25:
@@ -769,6 +771,14 @@ def gen_op(rng, wd: World, swarm, step, script):
             if nset < 1 or w["mode"] == "preger":
                 continue
             return _poser_op(rng, wd)
+        if k == "user_edit":
+            ran = [i for i in mem if wd.st[i].ran and isinstance(getattr(wd.algs[i], "data", None), np.ndarray)]
+            if not ran:
+                continue
+            i = rng.choice(ran)
+            nm = w["algs"][i]["name"]
+            script.append(lambda r, wd2, si=si, nm=nm: {"op": "run", "setup": si, "name": nm})
+            return {"op": "user_edit", "alg": i, "channel": rng.randrange(8)}
         if k == "branch_copy":
             if not mem:
                 continue
@@ -956,7 +966,21 @@ def _mpe_op(rng, wd, si, ai, nmodes=None):
             args = {"sel_freq": [1.0], "DF": 0.5}
         else:
             args = {"sel_freq": [1.0], "DF1": 0.5, "DF2": 1.5}
-    return {"op": "mpe", "setup": si, "name": spec["name"], "args": args}
+    op = {"op": "mpe", "setup": si, "name": spec["name"], "args": args}
+    if rng.random() < 0.4:
+        op["reuse_list"] = True
+    prev = [o for o in wd.res["ops"] if o.get("op") == "mpe" and o.get("name") == spec["name"] and o.get("setup") == si]
+    if prev and st.ran and rng.random() < 0.35 and isinstance(args.get("sel_freq"), list):
+        # the analyst repeats the extraction with everything as before except the selection itself (one frequency
+        # dropped, or another set of peaks), passing the same list object again
+        again = copy.deepcopy(prev[-1]["args"])
+        if isinstance(again.get("sel_freq"), list):
+            sel = list(again["sel_freq"])
+            again["sel_freq"] = sel[:-1] if len(sel) > 1 and rng.random() < 0.5 else list(args["sel_freq"])
+            if again["sel_freq"] != sel:
+                op["args"] = again
+                op["reuse_list"] = True
+    return op
 
 
 def _fault_exc(rng, site):
@@ -1221,6 +1245,20 @@ def apply_op(wd: World, op, step):
         outcome = _do_poser(wd, op, step)
     elif k == "bare_gate":
         outcome = _do_bare_gate(wd, op, step)
+    elif k == "user_edit":
+        # the user changes the samples of a record in place (flips the sign of a channel mounted the wrong way round,
+        # reuses one acquisition buffer): the bound array object is the same, its content is not - the next run must be
+        # the run on the CURRENT content, whatever the instance computed from the old one
+        i = op["alg"]
+        arr = getattr(wd.algs[i], "data", None)
+        if isinstance(arr, np.ndarray) and arr.ndim == 2 and arr.flags.writeable and np.issubdtype(arr.dtype, np.floating):
+            arr[:, op["channel"] % arr.shape[1]] *= -1.0
+            wd.user_hash = [[h_array(a_) for a_ in arrs] for arrs in wd.arrays]
+            wd.refs.clear()
+            wd.inc("probe.user_edited_the_bound_array_in_place")
+            before = wd.snapshot()
+        else:
+            outcome = "skipped"
     elif k == "branch_copy":
         # the user branches off a setup with copy.copy (a shallow copy: a new setup object sharing the attribute objects
         # of the original - legal, every setup method re-binds attributes instead of mutating them), works on the branch
@@ -1473,9 +1511,16 @@ def _do_mpe(wd, op, step, before):
             # after a restart (pickle changed the memory layout) or a swallowed fault: what the algorithm holds now
             pre.result = copy.deepcopy(alg.result)
             pre.run_params = copy.deepcopy(alg.run_params)
+    call_args = copy.deepcopy(op["args"])
+    if op.get("reuse_list") and isinstance(call_args.get("sel_freq"), list):
+        # the user keeps ONE list of selected frequencies per algorithm, edits it in place and passes it again
+        lst = wd.sel_lists.setdefault(ai, [])
+        lst[:] = call_args["sel_freq"]
+        call_args["sel_freq"] = lst
+        wd.inc("probe.mpe_with_the_users_reused_list_object")
     _arm(wd, op)
     try:
-        setup.mpe(op["name"], **copy.deepcopy(op["args"]))
+        setup.mpe(op["name"], **call_args)
         rexc = None
     except (Exception, KeyboardInterrupt) as e:
         rexc = e
@@ -1713,6 +1758,7 @@ def _do_restart_inner(wd, op, step):
         wd.violate("persist.alias", step, "load_from_file returned the live objects instead of an independent copy")
         return "ok"
     wd.shadows.append((old, snap))  # the dropped originals must not change when the copy is used
+    wd.sel_lists.clear()  # ... and the user starts new lists of selected frequencies for the loaded objects
     _adopt(wd, si, obj)
     wd.inc("probe.restart")
     if any(wd.st[i].ran and wd.st[i].mpe != "yes" for i in wd.members(si)):
@@ -1809,6 +1855,7 @@ def _restore_model_from(wd, sj, obj, states):
 
 
 def _fresh_setup(wd, sj):
+    wd.sel_lists.clear()
     wd.setups[sj] = make_setup(wd.w["setups"][sj], wd.arrays[sj], user_fs(wd.w))
     for i, a in enumerate(wd.w["algs"]):
         if a["home"] == sj or wd.st[i].added_to == sj:
